@@ -276,6 +276,8 @@ func (badgerIt *badgerIterator) Seek(id []byte) error {
 	badgerIt.init(true)
 	badgerIt.c.Seek(id)
 	if !badgerIt.c.Valid() {
+		// nothing at or after id: drop the key of the previous position
+		badgerIt.key = nil
 		return fmt.Errorf("Invalid")
 	}
 	k := badgerIt.c.Item().Key()
@@ -288,6 +290,8 @@ func (badgerIt *badgerIterator) SeekReverse(id []byte) error {
 	badgerIt.init(false)
 	badgerIt.c.Seek(id)
 	if !badgerIt.c.Valid() {
+		// nothing at or before id: drop the key of the previous position
+		badgerIt.key = nil
 		return fmt.Errorf("Invalid")
 	}
 	k := badgerIt.c.Item().Key()
